@@ -26,6 +26,13 @@ class Result:
         if got < minimum:
             self.failures.append("discovery floor not met: %s = %d < %d" % (name, got, minimum))
 
+    def need(self, rule, name, got, minimum, what):
+        """an obligation-bearing count: fewer instances than on the reviewed tree means an obligation
+        can no longer be located -> violation (not a machinery failure)"""
+        self.counts[name] = got
+        if got < minimum:
+            self.bad(rule, "%s|located" % name, "%s: found %d, the reviewed tree has %d - the obligation attached to the missing instance cannot be located" % (what, got, minimum))
+
     def count(self, name, got):
         self.counts[name] = got
 
